@@ -37,6 +37,10 @@ def configs(t, sd):
         out.append({"methods": [], "bare": bare, "clear": ["expr", None, "sub", "abi", "expr-reject"][bi % 5]})
         if bi % 2 == 0:
             out.append({"methods": [{"name": "beta", "config": {"no_op": 1}}], "bare": bare, "clear": "sub"})
+    # handlers that are If / ElseIf chains without Else whose arms all leave the program (bare actions and the clear-state program)
+    for occ in ("no_op", "opt_in", "update_application"):
+        out.append({"methods": [], "bare": {occ: {"cc": 3, "kind": "expr-chain"}, "delete_application": {"cc": 1, "kind": "expr-approve"}}, "clear": "chain"})
+    out.append({"methods": [{"name": "gamma", "config": {"no_op": 1}}], "bare": {"no_op": {"cc": 2, "kind": "expr-chain"}, "opt_in": {"cc": 1, "kind": "sub"}}, "clear": "chain"})
     # registration through the decorator with keyword arguments (unspecified OnCompletions are NEVER; no keyword = no_op CALL)
     for mc in [(1, 0, 0, 0, 0), (0, 1, 0, 0, 0), (0, 3, 0, 0, 0), (0, 0, 2, 0, 0), (0, 0, 0, 1, 1), (3, 1, 0, 0, 0), (0, 0, 0, 0, 3), (2, 0, 0, 0, 0), (0, 1, 1, 1, 1)]:
         out.append({"methods": [{"name": "deco", "config": dict(zip(OCS5, mc)), "via": "decorator"}], "bare": {}, "clear": "expr"})
@@ -68,7 +72,7 @@ def build_jobs(t, sd):
                     jobs.append({"id": "router%d@v%d%s%s" % (ci, v, "/asm" if asm else "", "" if opt is None else "/nofp"),
                                  "family": "router:%dm:%db" % (len(cfg["methods"]), len(cfg["bare"])), "cfg": to_json(cfg), "version": v,
                                  "assemble": asm, "optimize": opt,
-                                 "expect_ok": any(m.get("via") for m in cfg["methods"])})
+                                 "expect_ok": any(m.get("via") for m in cfg["methods"]) or cfg.get("clear") == "chain"})
     for j in jobs[:: max(1, len(jobs) // 5)]:
         j["want_sample"] = True
         j["keep_teal"] = True
